@@ -185,6 +185,10 @@ class Sender:
             OutOfOrderSequenceNumber,
             TransactionalIdAuthorizationFailed,
         ):
+            # Nothing may be sent after a fatal error, so do not leave the
+            # requests, that were not written yet, behind
+            for task in tasks:
+                task.cancel()
             raise
         except Exception as exc:  # pragma: no cover
             log.exception("Unexpected error in sender routine")
